@@ -7,3 +7,19 @@ CHECKS["C04"] = (
     "Trusted: idealised figures in smgmon/sem.py (from the class docstrings and xyz2graph), Kabsch tolerance; atom ids are drawn at random (ids must not matter).",
     "DESIGN.md 2/C04",
 )
+_EXPL = "exploration"
+CHECKS["C01"] = (_EXPL, "runtime monitoring of real == on generated equal-by-construction variants (metamorphic oracle), reach counters via sys.monitoring",
+    "Thousands of generated graphs of all four classes are rebuilt under random id bijections and insertion orders, relabelled (copy / in place) and have every descriptor re-expressed by a geometric symmetry; the real ==, reversed ==, is_isomorphic and reflexive == are observed and must be True (exceptions count as misses).",
+    "Trusted: variant construction (cross-checked on a 5 % subsample by the independent reference enumerator); sizes <= 10 (quick) / 24 (thorough) atoms.", "DESIGN.md 2/C01")
+CHECKS["C02"] = (_EXPL, "runtime monitoring of real == against an independent reference isomorphism enumerator (differential oracle)",
+    "Independent pairs of small graphs, single-feature mutations of larger graphs and all 12 cross-class pairs go through the real == in both directions; truth comes from an independent backtracking search over element/bond/role/descriptor/stereo-change preserving bijections (never assumed from the mutation).",
+    "Trusted: reference enumerator of smgmon/sem.py (validated against permutation brute force at every start), Kabsch-derived descriptor symmetry groups; fully specified parities only.", "DESIGN.md 2/C02")
+CHECKS["C03"] = (_EXPL, "runtime monitoring of real hash() on equal-by-construction variants plus cross-process comparison under varied PYTHONHASHSEED",
+    "hash(g) == hash(g') for every oracle-equal variant pair (renaming, insertion order, proper re-expression, mirrored ordering with opposite parity), set/dict membership, and a 300-graph recipe corpus rebuilt in fresh interpreters under 4 (quick) / 32 (thorough) hash seeds.",
+    "Trusted: variant construction as C01; sampled hash seeds; empty graphs exempt from the process part as the statement says.", "DESIGN.md 2/C03")
+CHECKS["C05"] = (_EXPL, "runtime monitoring of the real enumerator's complete output against an independent reference enumerator; diagnostic state-invariant wrappers on _update_state/_revert_state",
+    "The complete list yielded by vf2pp_all_isomorphisms (full-graph mode; stereo / stereo_change on and off; default, colour-refinement and adversarial caller labels) is compared as a set and as a multiset with the independent reference enumerator on small pairs; on symmetric skeletons (|Aut| up to 31104) every mapping is validated, counted and checked for group closure; topological_symmetry_number is compared with the reference automorphism count.",
+    "Trusted: reference enumerator; sizes <= 7 atoms for exact set comparison with arbitrary labels, named symmetric skeletons beyond.", "DESIGN.md 2/C05")
+CHECKS["C16"] = (_EXPL, "runtime monitoring of real hash() on constructed certainly-unequal pairs (three families)",
+    "Pairs that differ in the (element, neighbour elements) multiset, the two stereoisomers of a graph with one differing stereogenic unit inside random surroundings, and reaction graphs whose reactant/product/TS multisets differ (incl. reverse) must hash differently; generate_stereoisomers counts are recorded as an end-to-end diagnostic.",
+    "Trusted: the constructions guarantee inequality; a 64-bit accidental collision (~5e-20 per pair) is reported as a violation as the property instructs.", "DESIGN.md 2/C16")
